@@ -20,14 +20,22 @@ inductive NumTy where
 deriving DecidableEq, Repr
 
 /-- width in bytes on the wire (bincode fixint) -/
-def NumTy.bytes : NumTy → Nat
+@[reducible] def NumTy.bytes : NumTy → Nat
   | .i8 | .u8 => 1
   | .i16 | .u16 => 2
   | .i32 | .u32 | .f32 => 4
   | .i64 | .u64 | .f64 => 8
   | .i128 | .u128 => 16
 
-def NumTy.signed : NumTy → Bool
+/-- `256 ^ bytes` as a literal (`NumTy.modulus_eq` in Lemmas/BincodePrim.lean) -/
+@[reducible] def NumTy.modulus : NumTy → Nat
+  | .i8 | .u8 => 256
+  | .i16 | .u16 => 65536
+  | .i32 | .u32 | .f32 => 4294967296
+  | .i64 | .u64 | .f64 => 18446744073709551616
+  | .i128 | .u128 => 340282366920938463463374607431768211456
+
+@[reducible] def NumTy.signed : NumTy → Bool
   | .i8 | .i16 | .i32 | .i64 | .i128 => true
   | _ => false
 
